@@ -46,6 +46,20 @@ def run(v, tier, seed, replay):
         p = subprocess.run([C.bin_path("fh-macro")], capture_output=True, text=True, timeout=1800)
         out = [parse_pair(l) for l in p.stdout.splitlines() if l.startswith("pair ")]
     fails = []
+    tls_fails, tls_seen = [], 0
+    if ok:
+        for l in p.stdout.splitlines():
+            if l.startswith("tls "):
+                f = l.split(" ")
+                d = dict(x.split("=", 1) for x in f[2:])
+                tls_seen += 1
+                if unhex(d["plain"]) != unhex(d["traced"]) or unhex(d["plainlog"]) != unhex(d["tracedlog"]):
+                    tls_fails.append("annotated function `tls_%s` called while the thread's local storage is torn down gave %r (side effects %r); the plain twin %r (%r)"
+                                     % (f[1], unhex(d["traced"]), unhex(d["tracedlog"]), unhex(d["plain"]), unhex(d["plainlog"])))
+            elif l.startswith("tlsrecs ") and l.split()[1] != "0":
+                tls_fails.append("spans were recorded by calls made during thread-local teardown (no local parent there)")
+        if tls_seen != 4:
+            tls_fails.append("the thread-local teardown scenario reported %d of 4 twins (process aborted in a destructor?)" % tls_seen)
     by = {d["id"]: d for d in out}
     shapes = {}
     for c in cases:
@@ -107,7 +121,9 @@ def run(v, tier, seed, replay):
                     kind, _, h = val.partition(":")
                     if kind == "lit" and unhex(h) != rv:
                         mism.append((c, "model emits literal %r for property %r, the real macro produced %r" % (unhex(h), rk, rv)))
-    if not fails and mism:
+    for msg in tls_fails[:2]:
+        v.violation(msg, {"scenario": "harness/fh-macro/src/main.rs: tls_teardown (a thread-local registered before the thread's first tracing call; its destructor calls the twins)"})
+    if not fails and not tls_fails and mism:
         c, msg = mism[0]
         v.violation("macro decision model/implementation correspondence broken: " + msg, {"function": {"id": c.id, "attribute": macrogen.attr_text(c)}, "mismatches": len(mism)}, found_input=False, tag="corr")
     seen = set()
@@ -117,7 +133,7 @@ def run(v, tier, seed, replay):
         seen.add(c.id)
         v.violation(msg, {"function": {"id": c.id, "shape": c.shape, "attribute": macrogen.attr_text(c), "body": c.body, "a": c.a, "s": c.s, "yields": c.yields},
                           "source": "harness/fh-macro/src/gen.rs (regenerated from VERIF_SEED)", "observed": {k: (by[c.id][k] if c.id in by else None) for k in ("plain", "traced", "tracedlog", "recs")}})
-    if not fails:
+    if not fails and not tls_fails:
         if not ok:
             v.violation("generated annotated functions do not compile against /repo's macro: " + err[:600], {"stderr": err}, found_input=False, tag="build")
         elif lean["failures"]:
